@@ -94,6 +94,29 @@ func c06Cases() []c06case {
 			}
 		}
 	}
+	// marker texts as administrators write them: the configured regular
+	// expression starts with or contains a '#' (the comment character of
+	// the configuration file when it is the first character of a line)
+	for _, t := range []string{"ASA", "IOS"} {
+		for _, front := range []string{"drc", "do-approve"} {
+			for _, value := range []string{"#.managed.by.NetSPoC", "NetSPoC.#1", "###"} {
+				for _, present := range []bool{true, false} {
+					sc := baseScenario(t, front)
+					sc.checkbanner = value
+					sc.banner = "Welcome to this device"
+					if present {
+						sc.banner = "### managed by NetSPoC #1 ###"
+					}
+					sc.name = fmt.Sprintf("%s/%s/checkbanner=%s/marker-present=%v", t, front, value, present)
+					c := c06case{sc: sc}
+					if !present {
+						c.mustBlock, c.why = true, "marker"
+					}
+					l = append(l, c)
+				}
+			}
+		}
+	}
 	// PAN-OS with two vsys that Netspoc manages: the marker of each one counts
 	for _, front := range []string{"drc", "do-approve"} {
 		for _, pending := range []bool{true, false} {
@@ -279,7 +302,7 @@ func panicKey(msg string) string {
 func init() {
 	registerSharded("C06", c06Worker, func(tier string) core.Meta {
 		return core.Meta{ID: "C06", Level: "fault_enumeration",
-			Rule: "full product, no sampling: device type {ASA, IOS, Linux, PAN-OS} x front end {drc, do-approve approve} x pending changes {some, none} x reported hostname {expected, other, expected with domain suffix} x marker; for expected names {router, fw.dmz, fw-[1]} additionally near-miss hostnames (prefix, suffix, upper case, last character dropped, each regexp/glob metacharacter of the name replaced by another character) with pending changes and marker present; {present, absent, banner text not configured} plus PAN-OS devices with two managed vsys x marker present/absent in each; plus PAN-OS high-availability answers {disabled, A/P active, A/P passive, A/A primary, A/A secondary, malformed, unknown mode}; each combination is one real approve run against the simulator; oracle: where the interlock applies the transcript has no config-changing, save/commit or reload-control line, the device state is unchanged, exit status != 0 and a diagnostic is printed; with no banner text configured the run must end like the marker-present run (same exit status and final device state); good devices must be approved (positive control); non-trivial = combinations where an interlock or the not-configured rule applies",
+			Rule: "full product, no sampling: device type {ASA, IOS, Linux, PAN-OS} x front end {drc, do-approve approve} x pending changes {some, none} x reported hostname {expected, other, expected with domain suffix} x marker; for expected names {router, fw.dmz, fw-[1], a name of 38 characters} additionally near-miss hostnames (prefix, suffix, upper case, last character dropped, the first 31 / 32 characters of the long name, each regexp/glob metacharacter of the name replaced by another character) with pending changes and marker present; {present, absent, banner text not configured}; ASA / IOS with marker expressions that start with or contain '#' x marker present / absent; plus PAN-OS devices with two managed vsys x marker present/absent in each; plus PAN-OS high-availability answers {disabled, A/P active, A/P passive, A/A primary, A/A secondary, malformed, unknown mode}; each combination is one real approve run against the simulator; oracle: where the interlock applies the transcript has no config-changing, save/commit or reload-control line, the device state is unchanged, exit status != 0 and a diagnostic is printed; with no banner text configured the run must end like the marker-present run (same exit status and final device state); good devices must be approved (positive control); non-trivial = combinations where an interlock or the not-configured rule applies",
 			Assumptions: []string{"NSX has no hostname, marker or HA notion in the statement and is left out"},
 			Bounds:      map[string]any{"runs": "about 330 combinations, same in both tiers"},
 		}
